@@ -1098,3 +1098,101 @@ func (g *Gen) cappedWorldThenProgram() *GProgram {
 	g.prog.Stmts = append(g.prog.Stmts, &GStmt{Kind: StSend, Sent: sent, Src: &GSource{Kind: SrcInorder, Subs: subs}, Dst: dstAcct("d")})
 	return g.prog
 }
+
+// wordMultiple: balances, caps and kept amounts that are exact multiples of 2^64 (through variables:
+// literals must fit in an int): an amount whose low 64 bits are zero is not zero.
+func (g *Gen) wordMultipleProgram() *GProgram {
+	asset := "COIN"
+	g.asset = asset
+	w := pow2(64)
+	k := func() *big.Int { return new(big.Int).Mul(w, bi(int64(1+g.r.Intn(2)))) }
+	g.bal["a"] = map[string]*big.Int{asset: k()}
+	g.bal["b"] = map[string]*big.Int{asset: bi(int64(g.r.Intn(9)))}
+	g.bal["c"] = map[string]*big.Int{asset: k()}
+	g.prog.Vars = append(g.prog.Vars, &GVarDecl{Type: "monetary", Name: "w"}, &GVarDecl{Type: "monetary", Name: "n"})
+	g.rawVars["w"] = asset + " " + k().String()
+	total := new(big.Int).Add(new(big.Int).Add(g.bal["a"][asset], g.bal["b"][asset]), g.bal["c"][asset])
+	if g.r.Chance(1, 2) {
+		total = new(big.Int).Add(g.bal["a"][asset], g.bal["b"][asset])
+	}
+	g.rawVars["n"] = asset + " " + total.String()
+	src := &GSource{Kind: SrcInorder, Subs: []*GSource{srcAcct("a"), srcAcct("b"), srcAcct("c")}}
+	var dst *GDest
+	switch g.r.Intn(3) {
+	case 0:
+		dst = &GDest{Kind: DstInorder, Clauses: []*GClause{{Cap: &GExpr{Kind: XVar, S: "w"}, To: &GKod{To: dstAcct("x")}}}, Remaining: &GKod{To: dstAcct("y")}}
+	case 1:
+		dst = &GDest{Kind: DstInorder, Clauses: []*GClause{{Cap: &GExpr{Kind: XVar, S: "w"}, To: &GKod{Kept: true}}}, Remaining: &GKod{To: dstAcct("y")}}
+	default:
+		dst = &GDest{Kind: DstAllot, Items: []*GDestItem{{Allot: &GAllot{Kind: AlRatio, E: g.ratio(bi(1), bi(2))}, To: &GKod{To: dstAcct("x")}}, {Allot: &GAllot{Kind: AlRemaining}, To: &GKod{To: dstAcct("y")}}}}
+	}
+	sent := &GSent{E: &GExpr{Kind: XVar, S: "n"}}
+	if g.r.Chance(1, 4) {
+		sent = &GSent{All: true, E: &GExpr{Kind: XAsset, S: asset}}
+	}
+	g.prog.Stmts = append(g.prog.Stmts, &GStmt{Kind: StSend, Sent: sent, Src: src, Dst: dst})
+	return g.prog
+}
+
+// worldLookalike: accounts whose names merely resemble `world` (another case, a sub-account, a longer
+// word) used as plain or bounded-overdraft sources with little or nothing on them: they are ordinary
+// accounts and give what they hold.
+func (g *Gen) worldLookalikeProgram() *GProgram {
+	asset := "USD"
+	g.asset = asset
+	name := g.r.Pick([]string{"World", "WORLD", "wOrld", "world:fees", "worldwide", "users:world", "world-1", "world_"})
+	g.bal[name] = map[string]*big.Int{asset: bi(int64(g.r.Intn(15)))}
+	g.smallBalances([]string{"b"}, asset, 20)
+	n := bi(int64(1 + g.r.Intn(40)))
+	var first *GSource = srcAcct(name)
+	if g.r.Chance(1, 3) {
+		first = &GSource{Kind: SrcOverdraft, E: acct(name), Bounded: lit(asset, bi(int64(g.r.Intn(10))))}
+	}
+	if g.r.Chance(1, 4) {
+		g.prog.Vars = append(g.prog.Vars, &GVarDecl{Type: "account", Name: "w"})
+		g.rawVars["w"] = name
+		first = &GSource{Kind: SrcAccount, E: &GExpr{Kind: XVar, S: "w"}}
+	}
+	src := first
+	if g.r.Chance(1, 2) {
+		src = &GSource{Kind: SrcInorder, Subs: []*GSource{first, srcAcct("b")}}
+	}
+	sent := &GSent{E: lit(asset, n)}
+	if g.r.Chance(1, 4) {
+		sent = &GSent{All: true, E: &GExpr{Kind: XAsset, S: asset}}
+	}
+	g.prog.Stmts = append(g.prog.Stmts, &GStmt{Kind: StSend, Sent: sent, Src: src, Dst: dstAcct("c")})
+	if g.r.Chance(1, 3) {
+		g.prog.Stmts = append(g.prog.Stmts, &GStmt{Kind: StSend, Sent: &GSent{E: lit(asset, bi(int64(1+g.r.Intn(10))))}, Src: srcAcct(name), Dst: dstAcct("d")})
+	}
+	return g.prog
+}
+
+// edgeLiteral: an amount written as a number literal at the very end of the int range or one past it.
+// One past it is a parse error on this tree (finding F-D10); if it is ever accepted it must mean what
+// is written, not the nearest value that fits.
+func (g *Gen) edgeLiteralProgram() *GProgram {
+	asset := "USD"
+	g.asset = asset
+	n := new(big.Int).Set([]*big.Int{pow2(63), new(big.Int).Add(pow2(63), bi(int64(g.r.Intn(100)))), new(big.Int).Sub(pow2(63), bi(1)),
+		new(big.Int).Sub(pow2(63), bi(2)), new(big.Int).Mul(pow2(63), bi(9))}[g.r.Intn(5)])
+	src := srcAcct("world")
+	if g.r.Chance(1, 3) {
+		g.bal["a"] = map[string]*big.Int{asset: new(big.Int).Add(n, bi(int64(g.r.Intn(3)-1)))}
+		src = srcAcct("a")
+	}
+	amount := &GExpr{Kind: XMonetary, A: &GExpr{Kind: XAsset, S: asset}, B: &GExpr{Kind: XNumber, N: n}}
+	switch g.r.Intn(3) {
+	case 0:
+		g.prog.Stmts = append(g.prog.Stmts, &GStmt{Kind: StSend, Sent: &GSent{E: amount}, Src: src, Dst: dstAcct("c")})
+	case 1:
+		g.prog.Stmts = append(g.prog.Stmts, &GStmt{Kind: StSend, Sent: &GSent{E: amount}, Src: src,
+			Dst: &GDest{Kind: DstInorder, Clauses: []*GClause{{Cap: lit(asset, bi(int64(g.r.Intn(50)))), To: &GKod{To: dstAcct("x")}}}, Remaining: &GKod{To: dstAcct("y")}}})
+	default:
+		g.prog.Vars = append(g.prog.Vars, &GVarDecl{Type: "monetary", Name: "big"})
+		g.rawVars["big"] = asset + " " + new(big.Int).Mul(n, bi(2)).String()
+		g.prog.Stmts = append(g.prog.Stmts, &GStmt{Kind: StSend, Sent: &GSent{E: &GExpr{Kind: XVar, S: "big"}}, Src: srcAcct("world"),
+			Dst: &GDest{Kind: DstInorder, Clauses: []*GClause{{Cap: amount, To: &GKod{To: dstAcct("x")}}}, Remaining: &GKod{To: dstAcct("y")}}})
+	}
+	return g.prog
+}
